@@ -47,6 +47,8 @@ func init() {
 }
 
 func runC06(c *Ctx, r *Report) {
+	r.Rule("C06/always-fetches-prompt", "AcquirePriv reports success only after it fetched the device's prompt (a lost connection cannot be reported as success)", 1)
+	checkAcquireAlwaysFetchesPrompt(c, r, "C06/always-fetches-prompt")
 	r.Rule("C06/error-classes", "each failure site named by the property wraps the sentinel the property names (timeout / auth / connection / privilege / NETCONF / operation / platform error)", 2)
 	checkErrorClasses(c, r, "C06")
 	r.Rule("C06/propagate", "at every call site of an I/O-capable function the error surfaces (returned, sent, or stored in a returned/sent result) and the failing edge neither retries, nor continues with I/O, nor returns success", 90)
